@@ -57,7 +57,7 @@ struct Totals {
     uint64_t idleProbes = 0, readerParksJudged = 0, readersNoWriter = 0, rendezvous = 0, rendezvousReaders = 0;
     uint64_t predictedParks = 0, predictedFast = 0, lateArrivalPatterns = 0, lateArrivals = 0;
     std::atomic<uint64_t> nestedSections{0}, nestedSameResource{0};
-    uint64_t deepQueues = 0, readerCrowds = 0, marathonRequests = 0, marathonHandovers = 0;
+    uint64_t deepQueues = 0, readerCrowds = 0, simultaneousCrowds = 0, marathonRequests = 0, marathonHandovers = 0;
     std::vector<uint64_t> fps;          // fingerprints of non-trivial cases
     std::vector<std::string> samples;
 } T;
@@ -398,6 +398,7 @@ void runPattern(uint64_t caseIdx, rt::Rng rng) {
     // case index -> (holder, word): every word of length 1..6 first, then random longer ones
     uint8_t holder;
     std::vector<uint8_t> word;
+    bool forceRendezvous = false;
     uint64_t idx = caseIdx % 100000;   // blocks of 100000 cases re-enumerate with other timing
     if (idx < 252) {
         holder = idx & 1;
@@ -407,7 +408,17 @@ void runPattern(uint64_t caseIdx, rt::Rng rng) {
         for (int i = 0; i < len; ++i) word.push_back((k >> i) & 1);
     } else if (idx % 89 == 7) {
         // a very deep queue: 70-160 requests, mostly writers so that they do not merge, parked behind one holder
-        if (rng.chance(400)) {
+        unsigned shape = (unsigned) ((idx / 89) % 10);   // cycles, so that even a short run sees each shape
+        if (shape < 2) {
+            // more than 255 readers inside at the same time without any writer around (each comes in on the uncontended
+            // path and, in rendezvous runs, stays until all of them are inside), then a writer: it waits for all of them
+            holder = R;
+            int len = (int) rng.range(257, 330);
+            for (int i = 0; i < len; ++i) word.push_back(R);
+            word.push_back(W);
+            forceRendezvous = true;
+            ++T.simultaneousCrowds;
+        } else if (shape < 5) {
             // one crowd of more than 255 readers queued behind a writer: they form a single batch
             holder = W;
             int len = (int) rng.range(257, 330);
@@ -425,7 +436,7 @@ void runPattern(uint64_t caseIdx, rt::Rng rng) {
         int wp = (int) rng.range(15, 60);
         for (int i = 0; i < len; ++i) word.push_back(rng.below(100) < (uint64_t) wp ? W : R);
     }
-    bool rendezvous = rng.chance((unsigned) rt::optInt("rdv", 300));
+    bool rendezvous = rng.chance((unsigned) rt::optInt("rdv", 300)) || forceRendezvous;
     // late arrivals: one request of the first wave (the pivot) keeps the lock until a second wave has
     // arrived, so that requests also arrive while queued requests of the first wave are being served
     size_t pivot = 0;
@@ -685,7 +696,7 @@ int main(int argc, char **argv) {
                    .kv("readersNoWriter", T.readersNoWriter).kv("readerParksJudged", T.readerParksJudged)
                    .kv("rendezvous", T.rendezvous).kv("rendezvousReaders", T.rendezvousReaders)
                    .kv("predictedParks", T.predictedParks).kv("predictedFast", T.predictedFast)
-                   .kv("lateArrivalPatterns", T.lateArrivalPatterns).kv("lateArrivals", T.lateArrivals).kv("sectionsNestedInOtherResource", T.nestedSections.load()).kv("recursiveReadLocks", T.nestedSameResource.load()).kv("queuesDeeperThan64", T.deepQueues).kv("readerCrowdsOver255", T.readerCrowds).kv("marathonRequests", T.marathonRequests).kv("marathonReleasesWithQueue", T.marathonHandovers)
+                   .kv("lateArrivalPatterns", T.lateArrivalPatterns).kv("lateArrivals", T.lateArrivals).kv("sectionsNestedInOtherResource", T.nestedSections.load()).kv("recursiveReadLocks", T.nestedSameResource.load()).kv("queuesDeeperThan64", T.deepQueues).kv("readerCrowdsOver255", T.readerCrowds).kv("simultaneousReadersOver255", T.simultaneousCrowds).kv("marathonRequests", T.marathonRequests).kv("marathonReleasesWithQueue", T.marathonHandovers)
                    .kv("nontrivial", (uint64_t) T.fps.size())
                    .kv("spuriousWakeupsInjected", k.spurious.load()).kv("delaysAfterWake", k.afterWake.load()).kv("delaysCondEntry", k.condEntry.load())
                    .kv("delaysOther", k.beforeLock.load() + k.afterUnlock.load() + k.beforeNotify.load() + k.threadStart.load())
